@@ -191,13 +191,13 @@ func (l *captureLogger) Printf(format string, values ...interface{}) {
 func buildStore(w *WStore) *realStore {
 	s := &realStore{flags: map[string]*ldmodel.FeatureFlag{}, segments: map[string]*ldmodel.Segment{}}
 	for i := range w.Flags {
-		if _, dup := s.flags[w.Flags[i].Key]; !dup {
-			s.flags[w.Flags[i].Key] = w.Flags[i].build()
+		if _, dup := s.flags[w.Flags[i].lookupKey()]; !dup {
+			s.flags[w.Flags[i].lookupKey()] = w.Flags[i].build()
 		}
 	}
 	for i := range w.Segments {
-		if _, dup := s.segments[w.Segments[i].Key]; !dup {
-			s.segments[w.Segments[i].Key] = w.Segments[i].build()
+		if _, dup := s.segments[w.Segments[i].lookupKey()]; !dup {
+			s.segments[w.Segments[i].lookupKey()] = w.Segments[i].build()
 		}
 	}
 	return s
@@ -326,7 +326,13 @@ func (s *evalSetup) evalOnce(flag *ldmodel.FeatureFlag, ctx ldcontext.Context, r
 			w := WEvent{Target: e.TargetFlagKey, Result: dumpResult(e.PrerequisiteResult), Excl: e.ExcludeFromSummaries}
 			if e.PrerequisiteFlag != nil {
 				w.Prereq, w.Version = e.PrerequisiteFlag.Key, e.PrerequisiteFlag.Version
-				if s.cur().flags[e.PrerequisiteFlag.Key] != e.PrerequisiteFlag {
+				held := false
+				for _, sf := range s.cur().flags {
+					if sf == e.PrerequisiteFlag {
+						held = true
+					}
+				}
+				if !held {
 					obs.EventsOK = false
 				}
 			} else {
@@ -383,17 +389,19 @@ func runEval(c *EvalCase) {
 	c.Flag = dumpFlag(flag, form)
 	seenF, seenS := map[string]bool{}, map[string]bool{}
 	for i := range c.Store.Flags {
-		k := c.Store.Flags[i].Key
+		k, lk := c.Store.Flags[i].lookupKey(), c.Store.Flags[i].LK
 		if !seenF[k] {
 			seenF[k] = true
 			c.Store.Flags[i] = dumpFlag(store.flags[k], c.Store.Flags[i].Form)
+			c.Store.Flags[i].LK = lk
 		}
 	}
 	for i := range c.Store.Segments {
-		k := c.Store.Segments[i].Key
+		k, lk := c.Store.Segments[i].lookupKey(), c.Store.Segments[i].LK
 		if !seenS[k] {
 			seenS[k] = true
 			c.Store.Segments[i] = dumpSegment(store.segments[k], c.Store.Segments[i].Form)
+			c.Store.Segments[i].LK = lk
 		}
 	}
 	c.Ctx = dumpCtx(ctx, c.Ctx.Inv)
